@@ -38,3 +38,11 @@ def contract_sources(run, pairs):
             run.under_contract(rel, qual, tables.source_of(rel, qual))
         except LookupError:
             run.under_contract(rel, qual, env.read(rel))
+
+
+def make_replay(pid):
+    """replay delegation to checks/bNN.py when the record comes from the bounded part"""
+    def replay(rec):
+        b = importlib.import_module(f'checks.b{pid[1:]}')
+        return b.replay(rec)
+    return replay
